@@ -82,7 +82,7 @@ def _exact(*encs):
 # ----------------------------------------------------------------------------
 @st.composite
 def _mode_dot_case(draw, operand):
-    shape = draw(gen.shapes(1, 4, 1, 4))
+    shape = draw(X.shapes(1, 4, 1, 4))
     cplx = draw(st.booleans())
     mode = draw(st.integers(0, len(shape) - 1))
     c = {"first": draw(first), "mode": mode, "x": draw(_arr(shape, cplx)), "cplx": cplx}
@@ -125,7 +125,7 @@ def _mmd_case(draw, form):
     """form: 'full' (modes=None, one operand per mode), 'ascending' (explicit ascending subset of
     modes, optional skip), 'unsorted' (explicit modes in arbitrary order, no skip),
     'all_vectors' (full contraction to a scalar)"""
-    shape = draw(gen.shapes(1, 4, 1, 4))
+    shape = draw(X.shapes(1, 4, 1, 4))
     nd = len(shape)
     cplx = draw(st.booleans())
     transpose = draw(st.booleans())
@@ -184,7 +184,7 @@ def o_mmd(case):
 @st.composite
 def _mmd_tcv_case(draw):
     """transpose=True with at least one complex vector: only cross-backend agreement is asserted"""
-    shape = draw(gen.shapes(1, 3, 1, 3))
+    shape = draw(X.shapes(1, 3, 1, 3))
     nd = len(shape)
     ops = []
     kinds = [draw(st.booleans()) for _ in range(nd)]
@@ -268,10 +268,11 @@ def _kr_case(draw, n_remaining, weights, mask, skip):
     sk = draw(st.integers(0, n - 1)) if skip else None
     rem_rows = [r for i, r in enumerate(rows) if i != sk]
     c = {"first": draw(first), "mats": mats, "skip": sk, "cplx": cplx, "weights": None, "mask": None}
-    use_w = weights if isinstance(weights, bool) else draw(st.booleans())
-    use_m = mask if isinstance(mask, bool) else draw(st.booleans())
-    if weights == "one_of" and not (use_w or use_m):
-        use_w = True
+    if weights == "one_of":     # at least one of weights / mask
+        use_w, use_m = draw(st.sampled_from([(True, False), (False, True), (True, True)]))
+    else:
+        use_w = weights if isinstance(weights, bool) else draw(st.sampled_from([False, True]))
+        use_m = mask if isinstance(mask, bool) else draw(st.sampled_from([False, True]))
     if use_w:
         c["weights"] = {"s": [R], "d": [v / 4 for v in draw(st.lists(st.integers(-12, 12), min_size=R, max_size=R))]}
     if use_m:
@@ -315,13 +316,13 @@ def o_kr(case):
 def _inner_case(draw, form):
     cplx = draw(st.booleans())
     if form == "full":
-        shape = draw(gen.shapes(1, 4, 1, 4))
+        shape = draw(X.shapes(1, 4, 1, 4))
         return {"first": draw(first), "a": draw(_arr(shape, cplx)), "b": draw(_arr(shape, cplx)), "n_modes": None,
                 "cplx": cplx}
     k = 0 if form == "zero" else draw(st.integers(1, 3))
     common = draw(st.lists(st.integers(1, 3), min_size=k, max_size=k))
-    lead = draw(st.lists(st.integers(1, 3), min_size=0, max_size=3 - min(k, 2)))
-    trail = draw(st.lists(st.integers(1, 3), min_size=0, max_size=3 - min(k, 2)))
+    lead = draw(X.shapes(0, 3 - min(k, 2), 1, 3))
+    trail = draw(X.shapes(0, 3 - min(k, 2), 1, 3))
     if form == "zero":
         lead = lead or [draw(st.integers(1, 3))]
         trail = trail or [draw(st.integers(1, 3))]
@@ -345,7 +346,7 @@ def o_inner(case):
 def _inner_bad_case(draw):
     form = draw(st.sampled_from(["full", "n_modes"]))
     if form == "full":
-        shape = draw(gen.shapes(1, 3, 1, 4))
+        shape = draw(X.shapes(1, 3, 1, 4))
         other = list(shape)
         how = draw(st.sampled_from(["size", "order", "permute"]))
         if how == "size":
@@ -390,7 +391,7 @@ def _outer_case(draw, batched):
     ns = draw(st.integers(1, 3))
     ts = []
     for _ in range(n):
-        shp = draw(gen.shapes(0 if batched else 1, 2 if n == 3 else 3, 1, 3))
+        shp = draw(X.shapes(0 if batched else 1, 2 if n == 3 else 3, 1, 3))
         ts.append(draw(_arr(([ns] if batched else []) + shp, cplx)))
     return {"first": draw(first), "ts": ts, "cplx": cplx}
 
@@ -532,7 +533,7 @@ def o_td(case):
 # ----------------------------------------------------------------------------
 @st.composite
 def _mttkrp_case(draw, orders, weights):
-    shape = draw(gen.shapes(orders[0], orders[1], 1, 4))
+    shape = draw(X.shapes(orders[0], orders[1], 1, 4))
     R = draw(st.integers(1, 3))
     cplx_f = draw(st.booleans())
     cplx_x = draw(st.booleans())
@@ -677,38 +678,38 @@ def o_moment(case):
 def subchecks(tier):
     S = SubCheck
     return [
-        S("mode_dot/matrix", _mode_dot_case("matrix"), o_mode_dot, quick=500, thorough=6000),
-        S("mode_dot/matrix_transpose", _mode_dot_case("matrix_t"), o_mode_dot, quick=500, thorough=6000),
-        S("mode_dot/vector", _mode_dot_case("vector"), o_mode_dot, quick=500, thorough=6000),
-        S("multi_mode_dot/full_list", _mmd_case("full"), o_mmd, quick=500, thorough=6000),
-        S("multi_mode_dot/ascending_modes_skip", _mmd_case("ascending"), o_mmd, quick=500, thorough=6000),
-        S("multi_mode_dot/unsorted_modes", _mmd_case("unsorted"), o_mmd, quick=500, thorough=6000),
-        S("multi_mode_dot/all_vectors", _mmd_case("all_vectors"), o_mmd, quick=350, thorough=4000),
-        S("multi_mode_dot/transpose_complex_vector", _mmd_tcv_case(), o_mmd_tcv, quick=250, thorough=3000),
-        S("kronecker/plain_reverse", _kron_case(False), o_kron, quick=400, thorough=5000),
-        S("kronecker/skip_matrix", _kron_case(True), o_kron, quick=400, thorough=5000),
-        S("khatri_rao/plain", _kr_case((2, 4), False, False, False), o_kr, quick=400, thorough=5000),
-        S("khatri_rao/weights", _kr_case((2, 4), True, False, False), o_kr, quick=400, thorough=5000),
-        S("khatri_rao/mask", _kr_case((2, 3), None, True, False), o_kr, quick=400, thorough=5000),
-        S("khatri_rao/skip_matrix", _kr_case((2, 3), None, None, True), o_kr, quick=400, thorough=5000),
-        S("khatri_rao/single_matrix_plain", _kr_case((1, 1), False, False, None), o_kr, quick=250, thorough=3000),
-        S("khatri_rao/single_matrix_weighted", _kr_case((1, 1), "one_of", None, None), o_kr, quick=400, thorough=5000),
-        S("inner/full", _inner_case("full"), o_inner, quick=400, thorough=5000),
-        S("inner/n_modes", _inner_case("n_modes"), o_inner, quick=500, thorough=6000),
-        S("inner/n_modes_zero", _inner_case("zero"), o_inner, quick=250, thorough=3000),
-        S("inner/reject_mismatch", _inner_bad_case(), o_inner_bad, quick=350, thorough=4000),
-        S("outer", _outer_case(False), o_outer, quick=400, thorough=5000),
-        S("batched_outer", _outer_case(True), o_batched_outer, quick=400, thorough=5000),
-        S("tensordot/int_modes", _td_case("int"), o_td, quick=400, thorough=5000),
-        S("tensordot/pair_modes", _td_case("pair"), o_td, quick=500, thorough=6000),
-        S("tensordot/batched", _td_case("batched"), o_td, quick=500, thorough=6000),
-        S("tensordot/batched_unsorted", _td_case("batched_unsorted"), o_td, quick=350, thorough=4000),
-        S("mttkrp/default", _mttkrp_case((3, 4), None), o_mttkrp, quick=500, thorough=6000),
-        S("mttkrp/order2_unweighted", _mttkrp_case((2, 2), False), o_mttkrp, quick=250, thorough=3000),
-        S("mttkrp/order2_weighted", _mttkrp_case((2, 2), True), o_mttkrp, quick=400, thorough=5000),
-        S("mttkrp/memory", _mttkrp_case((2, 4), None), o_mttkrp_memory, quick=500, thorough=6000),
-        S("sample_khatri_rao/given_indices", _skr_case(True), o_skr, quick=400, thorough=5000),
-        S("sample_khatri_rao/seeded", _skr_case(False), o_skr, quick=350, thorough=4000),
-        S("higher_order_moment/matrix", _moment_case(1), o_moment, quick=350, thorough=4000),
-        S("higher_order_moment/tensor", _moment_case(2), o_moment, quick=350, thorough=4000),
+        S("mode_dot/matrix", _mode_dot_case("matrix"), o_mode_dot, quick=500, thorough=3000),
+        S("mode_dot/matrix_transpose", _mode_dot_case("matrix_t"), o_mode_dot, quick=500, thorough=3000),
+        S("mode_dot/vector", _mode_dot_case("vector"), o_mode_dot, quick=500, thorough=3000),
+        S("multi_mode_dot/full_list", _mmd_case("full"), o_mmd, quick=500, thorough=3000),
+        S("multi_mode_dot/ascending_modes_skip", _mmd_case("ascending"), o_mmd, quick=500, thorough=3000),
+        S("multi_mode_dot/unsorted_modes", _mmd_case("unsorted"), o_mmd, quick=500, thorough=3000),
+        S("multi_mode_dot/all_vectors", _mmd_case("all_vectors"), o_mmd, quick=350, thorough=2000),
+        S("multi_mode_dot/transpose_complex_vector", _mmd_tcv_case(), o_mmd_tcv, quick=250, thorough=1500),
+        S("kronecker/plain_reverse", _kron_case(False), o_kron, quick=400, thorough=2500),
+        S("kronecker/skip_matrix", _kron_case(True), o_kron, quick=400, thorough=2500),
+        S("khatri_rao/plain", _kr_case((2, 4), False, False, False), o_kr, quick=400, thorough=2500),
+        S("khatri_rao/weights", _kr_case((2, 4), True, False, False), o_kr, quick=400, thorough=2500),
+        S("khatri_rao/mask", _kr_case((2, 3), None, True, False), o_kr, quick=400, thorough=2500),
+        S("khatri_rao/skip_matrix", _kr_case((2, 3), None, None, True), o_kr, quick=400, thorough=2500),
+        S("khatri_rao/single_matrix_plain", _kr_case((1, 1), False, False, None), o_kr, quick=250, thorough=1500),
+        S("khatri_rao/single_matrix_weighted", _kr_case((1, 1), "one_of", None, None), o_kr, quick=400, thorough=2500),
+        S("inner/full", _inner_case("full"), o_inner, quick=400, thorough=2500),
+        S("inner/n_modes", _inner_case("n_modes"), o_inner, quick=500, thorough=3000),
+        S("inner/n_modes_zero", _inner_case("zero"), o_inner, quick=250, thorough=1500),
+        S("inner/reject_mismatch", _inner_bad_case(), o_inner_bad, quick=350, thorough=2000),
+        S("outer", _outer_case(False), o_outer, quick=400, thorough=2500),
+        S("batched_outer", _outer_case(True), o_batched_outer, quick=400, thorough=2500),
+        S("tensordot/int_modes", _td_case("int"), o_td, quick=400, thorough=2500),
+        S("tensordot/pair_modes", _td_case("pair"), o_td, quick=500, thorough=3000),
+        S("tensordot/batched", _td_case("batched"), o_td, quick=500, thorough=3000),
+        S("tensordot/batched_unsorted", _td_case("batched_unsorted"), o_td, quick=350, thorough=2000),
+        S("mttkrp/default", _mttkrp_case((3, 4), None), o_mttkrp, quick=500, thorough=3000),
+        S("mttkrp/order2_unweighted", _mttkrp_case((2, 2), False), o_mttkrp, quick=250, thorough=1500),
+        S("mttkrp/order2_weighted", _mttkrp_case((2, 2), True), o_mttkrp, quick=400, thorough=2500),
+        S("mttkrp/memory", _mttkrp_case((2, 4), None), o_mttkrp_memory, quick=500, thorough=3000),
+        S("sample_khatri_rao/given_indices", _skr_case(True), o_skr, quick=400, thorough=2500),
+        S("sample_khatri_rao/seeded", _skr_case(False), o_skr, quick=350, thorough=2000),
+        S("higher_order_moment/matrix", _moment_case(1), o_moment, quick=350, thorough=2000),
+        S("higher_order_moment/tensor", _moment_case(2), o_moment, quick=350, thorough=2000),
     ]
